@@ -251,3 +251,94 @@ package otp
 //@   let cfg = suitecfg(suite)
 //@   ensures[iff] ok <==> (b32ok(secret) && usable(cfg) && admissible(cfg, input) && len(code) == cfg.Digits && code == otpcode(cfg.Hash, b32key(secret), ocramsg(cfg, input), cfg.Digits))
 //@   ensures[verdict] (ok && err == nil) || (!ok && err != nil)
+
+// ---------------------------------------------------------------------------
+// input-encoding helpers (utils.go, otp.go)
+
+//@ func otp.To8ByteBigEndian(v) (out)
+//@   loop 1 split i in -1..7
+//@   loop 1 invariant -1 <= i && i <= 7 && v == v0 / pow256(7 - i) && len(out) == 8
+//@   loop 1 invariant forall k in 0..7 :: i < k ==> out[k] == (v0 / pow256(7 - k)) % 256
+//@   loop 1 decreases i + 1
+//@   loop 1 bound 8
+//@   ensures[be8] view(out) == be8(v0) && fresh(out)
+
+//@ func otp.ParseDecimalToBigEndian8(s) (out, err)
+//@   loop 1 split i in -1..7
+//@   loop 1 invariant -1 <= i && i <= 7 && isdec64(s) && v == decval(s) / pow256(7 - i) && len(out) == 8
+//@   loop 1 invariant forall k in 0..7 :: i < k ==> out[k] == (decval(s) / pow256(7 - k)) % 256
+//@   loop 1 decreases i + 1
+//@   loop 1 bound 8
+//@   ensures[iff] err == nil <==> isdec64(s)
+//@   ensures[be8] err == nil ==> view(out) == be8(decval(s)) && fresh(out)
+//@   ensures[reject] err != nil ==> out == nil
+
+//@ func otp.ParseDecimal64BigEndian(decStr) (out, err)
+//@   loop 1 split i in -1..7
+//@   loop 1 invariant -1 <= i && i <= 7 && isdec64(decStr) && v == decval(decStr) / pow256(7 - i) && len(out) == 8
+//@   loop 1 invariant forall k in 0..7 :: i < k ==> out[k] == (decval(decStr) / pow256(7 - k)) % 256
+//@   loop 1 decreases i + 1
+//@   loop 1 bound 8
+//@   ensures[iff] err == nil <==> isdec64(decStr)
+//@   ensures[be8] err == nil ==> view(out) == be8(decval(decStr)) && fresh(out)
+//@   ensures[reject] err != nil ==> out == nil
+
+// the documented domain of the width is 0..2^20 (property C10 excludes other widths)
+//@ func otp.LeftPadHex(s, totalLen) (r)
+//@   requires 0 <= totalLen && totalLen <= 1048576
+//@   ensures[trunc] len(s) >= totalLen ==> r == s[len(s)-totalLen:]
+//@   ensures[pad] len(s) < totalLen ==> r == cat(rep("0", totalLen - len(s)), s)
+
+//@ func otp.ParseHexTimestamp(ts) (r, err)
+//@   loop 1 invariant lpad0(ts, 16) == lpad0(ts0, 16) && len(ts) <= max(len(ts0), 16)
+//@   loop 1 decreases 16 - len(ts)
+//@   loop 1 bound 16
+//@   ensures[iff] err == nil <==> ishex(lpad0(ts0, 16))
+//@   ensures[val] err == nil ==> view(r) == hexdec(lpad0(ts0, 16))
+
+//@ func otp.ParseDecimalChallengeRFC6287(s) (r, err)
+//@   loop 1 invariant isdecbig(s) && rpad0(hx, 256) == rpad0(upper(bighex(s)), 256) && len(hx) <= max(len(upper(bighex(s))), 256)
+//@   loop 1 decreases 256 - len(hx)
+//@   loop 1 bound 256
+//@   ensures[iff] err == nil <==> isdecbig(s) && ishex(rpad0(upper(bighex(s)), 256))
+//@   ensures[val] err == nil ==> view(r) == hexdec(rpad0(upper(bighex(s)), 256))
+//@   ensures[reject] !isdecbig(s) ==> err != nil && r == nil
+
+//@ macro hexfield(arg, f) = (arg == "" ==> f == nil) && (arg != "" ==> view(f) == hexdec(arg))
+//@ func otp.HexInputToOCRA(counter, challenge, password, sessionInfo, timestamp) (in, err)
+//@   let allok = (counter == "" || ishex(counter)) && (challenge == "" || ishex(challenge)) && (password == "" || ishex(password)) &&
+//@ |    (sessionInfo == "" || ishex(sessionInfo)) && (timestamp == "" || ishex(timestamp))
+//@   ensures[iff] err == nil <==> allok
+//@   ensures[fields] err == nil ==> hexfield(counter, in.Counter) && hexfield(challenge, in.Challenge) && hexfield(password, in.Password) &&
+//@ |    hexfield(sessionInfo, in.SessionInfo) && hexfield(timestamp, in.Timestamp)
+//@   ensures[reject] err != nil ==> in.Counter == nil && in.Challenge == nil && in.Password == nil && in.SessionInfo == nil && in.Timestamp == nil
+
+// ---------------------------------------------------------------------------
+// enums, secrets
+
+//@ func otp.DigitsFromStr(digits) (r)
+//@   ensures r == (digits == "6" ? 6 : (digits == "8" ? 8 : (digits == "9" ? 9 : (digits == "10" ? 10 : 6))))
+//@ func otp.AlgorithmFromStr(algo) (r)
+//@   ensures r == (algo == "SHA1" ? 0 : (algo == "SHA256" ? 1 : (algo == "SHA512" ? 2 : 0)))
+//@ func otp.(Algorithm).String(algo) (r)
+//@   ensures (algo == 0 ==> r == "SHA1") && (algo == 1 ==> r == "SHA256") && (algo == 2 ==> r == "SHA512") && (algo > 2 ==> r == "")
+
+// rng is the operating system's random stream; rngpos0/rngpos the ghost read position before/after the call
+//@ func otp.RandomSecret(algo) (s, err)
+//@   label result key
+//@   ensures[unsupported] algo > 2 ==> err != nil && s == "" && rngpos == rngpos0
+//@   ensures[csprng] algo <= 2 && err == nil ==> s == b32nopad(sub(rng, rngpos0, rngpos0 + hlen(algo))) && rngpos == rngpos0 + hlen(algo)
+//@   ensures[nosecret] err != nil ==> s == ""
+
+// ---------------------------------------------------------------------------
+// suites: termination of the token loop (functional contracts of the parser: see DESIGN C15)
+
+//@ func otp.ListSuites() (suites)
+//@   loop 1 invariant fresh(suites)
+//@   ensures fresh(suites)
+
+//@ func otp.parseDataInputTokens(cfg, input) (err)
+//@   requires cfg != nil
+//@   modifies cfg
+//@   loop 1 invariant -1 <= rangeindex && rangeindex < len(toks)
+//@   loop 1 decreases len(toks) - rangeindex
